@@ -43,6 +43,11 @@ CHECKS = {
              "equality on every path. Every decoder is also run on every byte string of the listed short lengths, where each path must end within the step budget.",
         note="Trusted: interpreter, z3. List sizes / payload lengths not listed and arbitrary buffers longer than 16 (36 for PDUs) bytes are outside the claim; a security "
              "trailer with an empty auth value is treated as not well-formed (auth_length 0 means no trailer)."),
+    "C14": dict(
+        text="SyncRpcClient._send_pdu and AsyncRpcClient._send_pdu are executed against a transport stub whose read sizes are solver variables (every cut position incl. "
+             "inside the 16-byte header, 2-3 symbolic chunks quick, up to 5 thorough) and whose EOF point is a solver variable over every byte offset; z3/path exploration "
+             "shows the decoded PDU equals the unsegmented decode on every path and that every early EOF raises within the step budget.",
+        note="Trusted: interpreter, the recv/recv_into/readexactly contracts as stubbed. More symbolic chunks and larger replies are outside the claim."),
 }
 
 _PENDING = "check not built yet in this round (work in progress; see DESIGN.md for the plan)"
